@@ -402,6 +402,17 @@ def _kmer_count_blocks(ctx):
     from .c13 import r5_coverage_and_accumulation
     r5_coverage_and_accumulation(ctx)   # in-memory counting walks the flat input in blocks: every block must be visited
 
+
+def _round7_groups(ctx):
+    from .. import memo
+    from ..idioms import check_endpoint_samples
+    from .round7 import ragged_changes_symmetric, compatible_means_same_order
+    ragged_changes_symmetric(ctx, "C11-R9")
+    compatible_means_same_order(ctx, "C11-R9")
+    mods = [m for m in ["bionumpy.streams.groupby_func", "bionumpy.streams.left_join", "bionumpy.streams.multistream", "bionumpy.streams.reductions", "bionumpy.streams.stream", "bionumpy.streams.chunk_entries", "bionumpy.genomic_data.genome_context", "bionumpy.genomic_data.genome_context_base"] if m in ctx.index.modules]
+    ctx.count("dict-cache stores examined", memo.check_dict_caches(ctx, mods, rule_prefix="C11-R9"))
+    check_endpoint_samples(ctx, mods, "C11-R9")
+
 RULES = [
     ("C11-R1", r1_lockstep_sources),
     ("C11-R2", r2_graph_lockstep),
@@ -413,4 +424,5 @@ RULES = [
     ("C11-T1", _through_time),
     ("C11-T2", _small_edits),
     ("C11-R8", _kmer_count_blocks),
+    ("C11-R9", _round7_groups),
 ]
